@@ -30,10 +30,16 @@ theorem term_facts {t : Tok} (h : t.kind = .comma ∨ t.kind = .rbrack ∨ t.kin
     t.isErr = false ∧ isPsStart t.kind = false ∧ (t.kind == .colon) = false ∧ (t.kind == .string) = false := by
   rcases h with h | h | h <;> simp [Tok.isErr, isPsStart, h]
 
-/-- `key : value` with a quoted key; the value a quoted string, an integer or a decimal; the value node carries the key's line -/
+/-- a tuple key: quoted text or a bare identifier -/
+def keyTok (quoted : Bool) (k : String) (l : Nat) : Tok := ⟨if quoted then .string else .id, .str k, l⟩
+
+/-- `key : value` with a quoted or bare-identifier key; the value a quoted string, a bare identifier, an integer or a decimal; the value node
+carries the key's line -/
 inductive RPair : List Tok → String × ENode → Prop
-  | str (k v : String) (lk lc lv : Nat) : RPair [⟨.string, .str k, lk⟩, ⟨.colon, .none, lc⟩, ⟨.string, .str v, lv⟩] (k, .mk (.str v) lk)
-  | int (k : String) (n : Int) (lk lc lv : Nat) : RPair [⟨.string, .str k, lk⟩, ⟨.colon, .none, lc⟩, ⟨.int, .int n, lv⟩] (k, .mk (.int n) lk)
+  | str (q : Bool) (k v : String) (lk lc lv : Nat) : RPair [keyTok q k lk, ⟨.colon, .none, lc⟩, ⟨.string, .str v, lv⟩] (k, .mk (.str v) lk)
+  | int (q : Bool) (k : String) (n : Int) (lk lc lv : Nat) : RPair [keyTok q k lk, ⟨.colon, .none, lc⟩, ⟨.int, .int n, lv⟩] (k, .mk (.int n) lk)
+  | flt (q : Bool) (k : String) (x : Rat) (lk lc lv : Nat) : RPair [keyTok q k lk, ⟨.colon, .none, lc⟩, ⟨.float, .float x, lv⟩] (k, .mk (.float x) lk)
+  | bare (q : Bool) (k v : String) (lk lc lv : Nat) : RPair [keyTok q k lk, ⟨.colon, .none, lc⟩, ⟨.id, .str v, lv⟩] (k, .mk (.str v) lk)
 
 /-- one or more pairs separated by commas, optionally followed by a trailing comma; the map is built from the last pair backwards
 (`dictSet`: a repeated key keeps the position of its later occurrence and the value of its earlier one) -/
@@ -175,30 +181,61 @@ theorem listBody_close (f l : Nat) (r : List Tok) : listBody (f + 1) (⟨.rbrack
 
 theorem tuplePair_renders {ts : List Tok} {p : String × ENode} (h : RPair ts p) (rest : List Tok) (hr : IsTerm rest) :
     tuplePair (ts ++ rest) = .ok (p, rest) := by
+  obtain ⟨t, r, rfl, ht⟩ := hr
+  obtain ⟨he, hps, hcol, _⟩ := term_facts ht
+  have hkey : ∀ (k : String) (lk lc : Nat) (tl : List Tok),
+      plainString (⟨.id, .str k, lk⟩ :: ⟨.colon, .none, lc⟩ :: tl) = .ok ((k, lk), ⟨.colon, .none, lc⟩ :: tl) :=
+    fun k lk lc tl => plainString_id k lk (t := ⟨.colon, .none, lc⟩) tl (by simp [Tok.isErr]) rfl
   cases h with
-  | str k v lk lc lv => simp [tuplePair, Tok.isErr, expect, numVal]
-  | int k n lk lc lv =>
-    obtain ⟨t, r, rfl, ht⟩ := hr
-    obtain ⟨he, hps, _, _⟩ := term_facts ht
-    simp [tuplePair, Tok.isErr, expect, numVal, isNumberHere, hps]
+  | str q k v lk lc lv =>
+    cases q <;> simp [tuplePair, keyTok, Tok.isErr, expect, numVal, hkey]
+  | int q k n lk lc lv =>
     simp [Tok.isErr] at he
-    simp [he]
+    cases q <;> simp [tuplePair, keyTok, Tok.isErr, expect, numVal, isNumberHere, hps, hkey, he]
+  | flt q k x lk lc lv =>
+    simp [Tok.isErr] at he
+    cases q <;> simp [tuplePair, keyTok, Tok.isErr, expect, numVal, isNumberHere, hps, hkey, he]
+  | bare q k v lk lc lv =>
+    have hperm : permissive ((⟨.id, .str v, lv⟩ :: t :: r : List Tok).length + 1) (⟨.id, .str v, lv⟩ :: t :: r) = .ok ((v, lv), t :: r) := by
+      unfold permissive
+      rw [plainString_id v lv r he hps]
+      simp only [List.length_cons]
+      rw [more_stop _ _ _ he hcol]
+    simp only [List.length_cons] at hperm
+    cases q <;> simp [tuplePair, keyTok, Tok.isErr, expect, isNumberHere, hkey, hperm]
 
 theorem RPair.shape {ts : List Tok} {p : String × ENode} (h : RPair ts p) :
-    ∃ t u r, ts = t :: u :: r ∧ t.isErr = false ∧ t.kind = .string ∧ u.kind = .colon ∧ r.length = 1 := by
-  cases h <;> exact ⟨_, _, _, rfl, by simp [Tok.isErr], rfl, rfl, rfl⟩
+    ∃ q k lk u r, ts = keyTok q k lk :: u :: r ∧ u.kind = .colon ∧ r.length = 1 := by
+  cases h <;> exact ⟨_, _, _, _, _, rfl, rfl, rfl⟩
 
 theorem RPairs.shape {ts : List Tok} {kv : List (String × ENode)} (h : RPairs ts kv) :
-    ∃ t u r, ts = t :: u :: r ∧ t.isErr = false ∧ t.kind = .string ∧ u.kind = .colon := by
+    ∃ q k lk u r, ts = keyTok q k lk :: u :: r ∧ u.kind = .colon := by
   cases h with
-  | one ts p hp => obtain ⟨t, u, r, rfl, h1, h2, h3, _⟩ := hp.shape; exact ⟨t, u, r, rfl, h1, h2, h3⟩
-  | oneComma ts p lc hp => obtain ⟨t, u, r, rfl, h1, h2, h3, _⟩ := hp.shape; exact ⟨t, u, r ++ [_], rfl, h1, h2, h3⟩
-  | cons ts k v lc ts' kv hp _ => obtain ⟨t, u, r, rfl, h1, h2, h3, _⟩ := hp.shape; exact ⟨t, u, r ++ _, rfl, h1, h2, h3⟩
+  | one ts p hp => obtain ⟨q, k, lk, u, r, rfl, h3, _⟩ := hp.shape; exact ⟨q, k, lk, u, r, rfl, h3⟩
+  | oneComma ts p lc hp => obtain ⟨q, k, lk, u, r, rfl, h3, _⟩ := hp.shape; exact ⟨q, k, lk, u, r ++ [_], rfl, h3⟩
+  | cons ts k v lc ts' kv hp _ => obtain ⟨q, k', lk, u, r, rfl, h3, _⟩ := hp.shape; exact ⟨q, k', lk, u, r ++ _, rfl, h3⟩
+
+theorem keyTok_facts (q : Bool) (k : String) (l : Nat) :
+    (keyTok q k l).isErr = false ∧ ((keyTok q k l).kind = .string ∨ (keyTok q k l).kind = .id) := by
+  cases q <;> simp [keyTok, Tok.isErr]
+
+theorem RPairs.head {ts : List Tok} {kv : List (String × ENode)} (h : RPairs ts kv) :
+    ∃ t u r, ts = t :: u :: r ∧ t.isErr = false ∧ (t.kind = .string ∨ t.kind = .id) ∧ u.kind = .colon := by
+  obtain ⟨q, k, lk, u, r, rfl, h3⟩ := h.shape
+  exact ⟨_, u, r, rfl, (keyTok_facts q k lk).1, (keyTok_facts q k lk).2, h3⟩
 
 /-- a rendering of pairs is recognised as the start of a tuple -/
 theorem atPair_pairs {ts : List Tok} {kv : List (String × ENode)} (h : RPairs ts kv) (rest : List Tok) : atPair (ts ++ rest) = true := by
-  obtain ⟨t, u, r, rfl, _, h2, h3⟩ := h.shape
-  simp [atPair, h2, h3]
+  obtain ⟨q, k, lk, u, r, rfl, h3⟩ := h.shape
+  have hcps : isPsStart u.kind = false := by rw [h3]; rfl
+  cases q with
+  | true => simp [atPair, keyTok, h3]
+  | false =>
+    have h1 : isPsStart TokKind.id = true := rfl
+    simp only [List.cons_append]
+    unfold atPair
+    simp only [keyTok, Bool.false_eq_true, if_false, List.takeWhile_cons, h1, hcps, if_true]
+    simp [h3]
 
 theorem RPair.len {ts : List Tok} {p : String × ENode} (h : RPair ts p) : ts.length = 3 := by cases h <;> rfl
 
@@ -233,13 +270,14 @@ theorem tuplePairs_renders {ts : List Tok} {kv : List (String × ENode)} (h : RP
       have ih' := ih rest f hr (by simp at hf; omega)
       simp only [List.append_assoc, List.cons_append, List.nil_append]
       rw [tuplePairs, tuplePair_renders hp _ hterm]
-      obtain ⟨t0, u0, r0, rfl, h0e, h0k, _⟩ := hps.shape
+      obtain ⟨t0, u0, r0, rfl, h0e, h0k, _⟩ := hps.head
       simp only [List.append_assoc, List.cons_append, List.nil_append] at ih' ⊢
       have hce : (⟨.comma, .none, lc⟩ : Tok).isErr = false := by simp [Tok.isErr]
       try simp only []
       rw [peek_head hce]
       simp only [List.drop_succ_cons, List.drop_zero]
-      rw [peek_head h0e, ih', h0k]
+      rw [peek_head h0e, ih']
+      rcases h0k with h0k | h0k <;> rw [h0k]
 
 mutual
   /-- **token-level round trip for values**: a rendering of a value, followed by a terminator, is read back as exactly that value -/
@@ -324,9 +362,9 @@ mutual
               have hclose : IsClose ((⟨.rbrack, .none, l'⟩ : Tok) :: rest) := ⟨_, _, rfl, rfl⟩
               have ht := tuplePairs_renders hkv (⟨.rbrack, .none, l'⟩ :: rest) f'' hclose (by simp at hf; omega)
               have hat := atPair_pairs hkv (⟨.rbrack, .none, l'⟩ :: rest)
-              obtain ⟨t0, u0, r0, rfl, h0e, h0k, _⟩ := hkv.shape
+              obtain ⟨t0, u0, r0, rfl, h0e, h0k, _⟩ := hkv.head
               simp only [List.cons_append, List.nil_append, List.append_assoc] at ht hat ⊢
-              have : t0.kind ≠ .rbrack := by simp [h0k]
+              have : t0.kind ≠ .rbrack := by rcases h0k with h0k | h0k <;> simp [h0k]
               rw [expression_lbrack, listBody_nonclose _ _ h0e this, elements]
               simp only [hat, if_true, ht]
               simp [Tok.isErr, expect]
